@@ -24,23 +24,23 @@ Notation fresh := (fresh ids N).
 
 (** the invariant holds initially, is preserved by every op, hence holds in every reachable state *)
 Theorem C03_inv_init : Inv empty_db.
-Proof. exact (inv_init ids N). Qed.
+Proof. intros; eapply inv_init; eauto. Qed.
 
 Theorem C03_inv_step : forall s o, Inv s -> fresh s -> Inv (fst (stepR s o)).
-Proof. exact (inv_step ids ids_inj N ids_uuid sanitize unit_ok). Qed.
+Proof. intros; eapply inv_step; eauto. Qed.
 
 Theorem C03_inv_reachable : forall s, reachable ids N sanitize unit_ok s -> Inv s.
-Proof. exact (inv_reachable ids ids_inj N ids_uuid sanitize unit_ok). Qed.
+Proof. intros; eapply inv_reachable; eauto. Qed.
 
 Theorem C03_inv_history : forall s l, Inv s -> fresh_along ids N sanitize unit_ok s l -> Inv (run ids sanitize unit_ok repaired s l).
-Proof. exact (inv_run ids ids_inj N ids_uuid sanitize unit_ok). Qed.
+Proof. intros; eapply inv_run; eauto. Qed.
 
 (** no two entities of one container share a name; no two entities of the file share an id *)
 Theorem C03_names_unique : forall s p k, Inv s -> k <> KFeature -> NoDup (map e_name (children s p k)).
-Proof. exact (names_unique ids N). Qed.
+Proof. intros; eapply names_unique; eauto. Qed.
 
 Theorem C03_ids_unique : forall s, Inv s -> NoDup (map (eid ids) (ents s)).
-Proof. exact (ids_unique ids ids_inj N). Qed.
+Proof. intros; eapply ids_unique; eauto. Qed.
 
 (** lookup by index = by name = by id = the member; has by name / id / handle is true for members *)
 Theorem C03_lookup_agree : forall s p k pk i e, Inv s -> container s p k pk -> nth_error (children s p k) i = Some e ->
@@ -50,81 +50,72 @@ Theorem C03_lookup_agree : forall s p k pk i e, Inv s -> container s p k pk -> n
   stepR s (OHasH p k (HEnt (e_oid e))) = (s, Ok (VBool true)) /\
   (k <> KFeature -> stepR s (OGet p k (e_name e)) = (s, Ok (VEnt (Some (e_oid e)))) /\
                     stepR s (OHas p k (e_name e)) = (s, Ok (VBool true))).
-Proof.
-  exact (fun s p k pk i e H C Hi =>
-    let He := nth_error_In _ _ Hi in
-    conj (get_by_index ids ids_inj N ids_uuid sanitize unit_ok s p k pk i e H C Hi)
-   (conj (get_by_id ids ids_inj N ids_uuid sanitize unit_ok s p k pk e H C He)
-   (conj (has_by_id ids ids_inj N ids_uuid sanitize unit_ok s p k pk e H C He)
-   (conj (has_by_handle ids ids_inj N ids_uuid sanitize unit_ok s p k pk e H C He)
-         (fun K => conj (get_by_name ids ids_inj N ids_uuid sanitize unit_ok s p k pk e H C He K)
-                        (has_by_name ids ids_inj N ids_uuid sanitize unit_ok s p k pk e H C He K)))))).
-Qed.
+Proof. intros; eapply lookup_agree; eauto. Qed.
 
 (** has => present *)
 Theorem C03_has_sound : forall s p k pk key, Inv s -> container s p k pk -> k <> KFeature ->
   stepR s (OHas p k key) = (s, Ok (VBool true)) -> exists e, In e (children s p k) /\ (e_name e = key \/ eid ids e = key).
-Proof. exact (has_sound ids N sanitize unit_ok). Qed.
+Proof. intros; eapply has_sound; eauto. Qed.
 
 Theorem C03_has_handle_sound : forall s p k pk e, Inv s -> container s p k pk -> k <> KFeature ->
   In e (ents s) -> e_kind e = k ->
   (pk = Some KBlock \/ forall x, In x (children s p k) -> e_name x <> eid ids e) ->
   stepR s (OHasH p k (HEnt (e_oid e))) = (s, Ok (VBool true)) -> In e (children s p k).
-Proof. exact (has_handle_sound ids ids_inj N ids_uuid sanitize unit_ok). Qed.
+Proof. intros; eapply has_handle_sound; eauto. Qed.
 
 (** count = number of members; the enumeration is the list of members (= what get by index returns, in order);
     an index past the end is refused *)
 Theorem C03_count_is_length : forall s p k pk, container s p k pk ->
   stepR s (OCount p k) = (s, Ok (VNat (List.length (children s p k)))).
-Proof. exact (count_is_length ids sanitize unit_ok). Qed.
+Proof. intros; eapply count_is_length; eauto. Qed.
 
 Theorem C03_enumeration_is_map_get : forall s p k pk, Inv s -> container s p k pk ->
   stepR s (OList p k) = (s, Ok (VEnts (map e_oid (children s p k)))).
-Proof. exact (enumeration_is_container ids ids_inj N ids_uuid sanitize unit_ok). Qed.
+Proof. intros; eapply enumeration_is_container; eauto. Qed.
 
 Theorem C03_index_out_of_range : forall s p k pk i, container s p k pk -> nth_error (children s p k) i = None ->
   stepR s (OGetIdx p k i) = (s, Err EOob).
-Proof. exact (index_out_of_range ids sanitize unit_ok). Qed.
+Proof. intros; eapply index_out_of_range; eauto. Qed.
 
 (** index order is creation order: the members are sorted by creation ordinal, and a create appends *)
 Theorem C03_order_is_creation_order : forall s p k, Inv s -> StronglySorted lt (map e_oid (children s p k)).
-Proof. exact (order_is_creation_order ids N). Qed.
+Proof. intros; eapply order_is_creation_order; eauto. Qed.
 
 Theorem C03_create_appends : forall s pk p k name type x s' v,
   do_create ids repaired s pk p k name type x = (s', Ok v) ->
   v = VEnt (Some (next s)) /\
   map e_oid (children s' p k) = map e_oid (children s p k) ++ [next s] /\
   forall p' k', (p', k') <> (p, k) -> children s' p' k' = children s p' k'.
-Proof. exact (create_appends ids). Qed.
+Proof. intros; eapply create_appends; eauto. Qed.
 
 (** deleting others and reopening keep the relative order of the survivors *)
 Theorem C03_delete_preserves_relative_order : forall s x p k,
   map e_oid (children (remove_subtree s x) p k) = filter (fun o => negb (memn o (subtree s x))) (map e_oid (children s p k)).
-Proof. exact delete_preserves_relative_order. Qed.
+Proof. intros; eapply delete_preserves_relative_order; eauto. Qed.
 
 Theorem C03_reopen_preserves_order : forall s, stepR s OReopen = (s, Ok VUnit).
-Proof. exact (reopen_preserves_order ids sanitize unit_ok). Qed.
+Proof. intros; eapply reopen_preserves_order; eauto. Qed.
 
 (** link containers (references, entity sources, group members): count, enumeration and index agree with the
     stored list of targets; adding appends, removing filters *)
 Theorem C03_link_count : forall s h sl he b, Inv s -> lcontainer s h sl he b ->
   stepR s (OLCount h sl) = (s, Ok (VNat (List.length (get_l sl (e_links he))))).
-Proof. exact (lcount_is_length ids N sanitize unit_ok). Qed.
+Proof. intros; eapply lcount_is_length; eauto. Qed.
 
 Theorem C03_link_enumeration : forall s h sl he b, Inv s -> lcontainer s h sl he b ->
   stepR s (OLList h sl) = (s, Ok (VEnts (get_l sl (e_links he)))).
-Proof. exact (lenumeration_is_container ids N sanitize unit_ok). Qed.
+Proof. intros; eapply lenumeration_is_container; eauto. Qed.
 
 Theorem C03_link_index : forall s h sl he b i t, Inv s -> lcontainer s h sl he b ->
   nth_error (get_l sl (e_links he)) i = Some t -> stepR s (OLGetIdx h sl i) = (s, Ok (VEnt (Some t))).
-Proof. exact (lget_by_index ids N sanitize unit_ok). Qed.
+Proof. intros; eapply lget_by_index; eauto. Qed.
 
 (** entity sources and group members are found by the target's id and by handle *)
 Theorem C03_link_by_id : forall s h sl he b t, Inv s -> lcontainer s h sl he b -> sl <> LRefs -> In t (members s he sl) ->
   stepR s (OLGet h sl (eid ids t)) = (s, Ok (VEnt (Some (e_oid t)))) /\
   stepR s (OLHasS h sl (eid ids t)) = (s, Ok (VBool true)) /\
   stepR s (OLHas h sl (HEnt (e_oid t))) = (s, Ok (VBool true)).
-Proof. exact (lget_by_id ids ids_inj N ids_uuid sanitize unit_ok). Qed.
+Proof. intros; eapply lget_by_id; eauto. Qed.
 
 (** references are found by id, by name and by handle (for a referenced array of the tag's block) *)
 Theorem C03_references_agree : forall s h he b t, Inv s -> lcontainer s h LRefs he b ->
@@ -134,7 +125,7 @@ Theorem C03_references_agree : forall s h he b t, Inv s -> lcontainer s h LRefs 
   stepR s (OLHasS h LRefs (eid ids t)) = (s, Ok (VBool true)) /\
   stepR s (OLHasS h LRefs (e_name t)) = (s, Ok (VBool true)) /\
   stepR s (OLHas h LRefs (HEnt (e_oid t))) = (s, Ok (VBool true)).
-Proof. exact (lget_reference ids ids_inj N ids_uuid sanitize unit_ok). Qed.
+Proof. intros; eapply lget_reference; eauto. Qed.
 
 End C03.
 
